@@ -1,7 +1,7 @@
 #!/bin/bash
 # usage: process_round.sh <Cxx> [check ...] — confirm both round-2 seeded changes of a property, keep them, run the checks against them
 pid="$1"; shift; checks="${*:-$pid}"
-export WT_ROOT=/tmp/wt2 ROUND=r2-
+export WT_ROOT=${WT_ROOT:-/tmp/wt2} ROUND=${ROUND:-r2-}
 for i in 1 2; do
   [ -f "$WT_ROOT/$pid/_out/mutant$i.diff" ] || { echo "no mutant $i for $pid"; continue; }
   res=$(/verif/harness/confirm_mutant.sh "$WT_ROOT/$pid" $i | grep '^RESULT')
@@ -9,5 +9,5 @@ for i in 1 2; do
   case "$res" in *clean_rc=0\ mutant_rc=0*|*APPLY-FAILED*) echo "NOT CONFIRMED $pid $i"; continue;; esac
   case "$res" in *clean_rc=0*82\ passed*) ;; *) echo "NOT CONFIRMED $pid $i"; continue;; esac
   python3 /verif/harness/keep_mutant.py "$pid" $i "$res"
-  for c in $checks; do /verif/harness/mutant_test.sh "/verif/seeded/$pid-r2-$i/patch.diff" "$c" 2>&1 | grep -v '^WARN\|KNOWN-FINDING' | cut -c1-220 | head -8; done
+  for c in $checks; do /verif/harness/mutant_test.sh "/verif/seeded/$pid-$ROUND$i/patch.diff" "$c" 2>&1 | grep -v '^WARN\|KNOWN-FINDING' | cut -c1-220 | head -8; done
 done
